@@ -313,6 +313,12 @@ impl super::BitVector for BitVector<'_> {
     }
 
     fn rank(&self, index: usize) -> Option<usize> {
+        if index > 0 && index == self.len() {
+            // rank(len) is defined, but there is no bit (and, when len is a multiple of the
+            // block size, no block) at index len: count through the last bit instead.
+            let (bit, rank) = self.access_rank(index - 1)?;
+            return Some(rank + bit as usize);
+        }
         Some(self.access_rank(index)?.1)
     }
 
